@@ -208,7 +208,7 @@ def _run_variant(job, work, vname, inc, res, seed):
     for k, v in job.unwindset.items(): cmd += ['--unwindset', '%s:%d' % (k, v)]
     if job.ub: cmd += ['-DVERIF_UB', '--pointer-overflow-check', '--no-malloc-may-fail']
     else: cmd += ['--no-standard-checks']
-    cmd += job.cbmc_extra
+    cmd += job.cbmc_extra or ['--sat-solver', 'cadical']
     rc, out, dt = run(['/usr/bin/time', '-f', 'MAXRSS_KB=%M'] + cmd, timeout=job.timeout, mem_gb=job.mem_gb)
     res['solver_s'] += dt
     m = re.search(r'MAXRSS_KB=(\d+)', out)
